@@ -83,6 +83,7 @@ class Lin:
 
 
 class C30(Check):
+    race = True
     id = "C30"
     prop_file = "theories/Properties/Properties_C30.v"
     theorems = ("C30_linearizable", "C30_final_contents", "C30_results_are_abstract_results",
@@ -235,6 +236,21 @@ class C30(Check):
     def search_cases(self):
         r = self.rng.fork()
         return [self.aba_case(r) for _ in range(3000)]
+
+    def race_cases(self, cases):
+        # plain accesses to the head and to the items are scheduling points in the race build: lengthen the schedules
+        out, r = [], self.rng.fork()
+        for c in cases:
+            try:
+                ch, nt, ni, s0, ths, sched = parse_case(c)
+            except Exception:
+                continue
+            if nt < 2:
+                continue
+            f = c.split("|")
+            f[-1] = " " + " ".join(str(r.below(nt)) for _ in range(r.range(4 * nt, 30 * nt)))
+            out.append("|".join(f))
+        return out
 
     def nontrivial_key(self, case):
         try:
